@@ -26,6 +26,7 @@ import (
 
 	"github.com/compose-spec/compose-go/v2/dotenv"
 	interp "github.com/compose-spec/compose-go/v2/interpolation"
+	"github.com/compose-spec/compose-go/v2/paths"
 	"github.com/compose-spec/compose-go/v2/types"
 )
 
@@ -165,7 +166,13 @@ func ApplyInclude(ctx context.Context, workingDir string, environment types.Mapp
 		if err != nil {
 			return err
 		}
-		err = importResources(imported, model)
+		var remotes []paths.RemoteResource
+		for _, loader := range options.RemoteResourceLoaders() {
+			remotes = append(remotes, loader.Accept)
+		}
+		err = importResourcesWith(imported, model, func(key, name string, a, b any) bool {
+			return sameResource(key, name, a, b, baseDir, remotes)
+		})
 		if err != nil {
 			return err
 		}
@@ -174,27 +181,50 @@ func ApplyInclude(ctx context.Context, workingDir string, environment types.Mapp
 	return nil
 }
 
+// sameResource tells whether two definitions of resource key.name are the same: deeply equal, or deeply equal once
+// their relative paths are resolved against the including project's directory. The same file reached through two
+// include routes carries paths that are resolved relative to each route only ("x" vs "../proj/x", or absolute when a
+// route sets an absolute project_directory), which must not be reported as a conflict.
+func sameResource(key, name string, a, b any, base string, remotes []paths.RemoteResource) bool {
+	if reflect.DeepEqual(a, b) {
+		return true
+	}
+	resolved := func(v any) (r any, ok bool) {
+		// the including file's own definition has not been validated yet: a malformed one is simply not the same
+		defer func() {
+			if recover() != nil {
+				r, ok = nil, false
+			}
+		}()
+		m := map[string]any{key: map[string]any{name: deepClone(v)}}
+		if err := paths.ResolveRelativePaths(m, base, remotes); err != nil {
+			return nil, false
+		}
+		return m[key].(map[string]any)[name], true
+	}
+	ra, ok := resolved(a)
+	if !ok {
+		return false
+	}
+	rb, ok := resolved(b)
+	return ok && reflect.DeepEqual(ra, rb)
+}
+
 // importResources import into model all resources defined by imported, and report error on conflict
 func importResources(source map[string]any, target map[string]any) error {
-	if err := importResource(source, target, "services"); err != nil {
-		return err
-	}
-	if err := importResource(source, target, "volumes"); err != nil {
-		return err
-	}
-	if err := importResource(source, target, "networks"); err != nil {
-		return err
-	}
-	if err := importResource(source, target, "secrets"); err != nil {
-		return err
-	}
-	if err := importResource(source, target, "configs"); err != nil {
-		return err
+	return importResourcesWith(source, target, func(_, _ string, a, b any) bool { return reflect.DeepEqual(a, b) })
+}
+
+func importResourcesWith(source map[string]any, target map[string]any, same func(key, name string, a, b any) bool) error {
+	for _, key := range []string{"services", "volumes", "networks", "secrets", "configs"} {
+		if err := importResource(source, target, key, same); err != nil {
+			return err
+		}
 	}
 	return nil
 }
 
-func importResource(source map[string]any, target map[string]any, key string) error {
+func importResource(source map[string]any, target map[string]any, key string, same func(key, name string, a, b any) bool) error {
 	from := source[key]
 	if from != nil {
 		var to map[string]any
@@ -212,7 +242,7 @@ func importResource(source map[string]any, target map[string]any, key string) er
 		}
 		for name, a := range resources {
 			if conflict, ok := to[name]; ok {
-				if reflect.DeepEqual(a, conflict) {
+				if same(key, name, a, conflict) {
 					continue
 				}
 				return fmt.Errorf("%s.%s conflicts with imported resource", key, name)
